@@ -134,6 +134,7 @@ class Machine(object):
         self.lazy_n = 0
         self.gcache = globals_cache if globals_cache is not None else {}
         self.cur = None
+        self.externals = {}       # name -> callable(machine, args, ins) modelling an external function
 
     # ---- helpers ----------------------------------------------------------
     def loc(self):
@@ -915,6 +916,9 @@ class Machine(object):
             if 'ctlz' in name:
                 return w - a.bit_length()
             return (a & -a).bit_length() - 1 if a else w
+        model = self.externals.get(name)
+        if model is not None:
+            return model(self, args, ins)
         # anything else has effects the analysis cannot see
         self.w.events.append((name, args, self.loc()))
         self.undecided('call to external function %s' % name)
@@ -934,7 +938,7 @@ def sym_arg(name, w):
     return tuple(('A', name, i) for i in range(w))
 
 
-def analyse(mod, fname, make_args, max_worlds=64, max_steps=2000000, gcache=None):
+def analyse(mod, fname, make_args, max_worlds=64, max_steps=2000000, gcache=None, externals=None):
     """Run `fname` in every world.  make_args() -> (args, regions) must build
     fresh argument values and regions for each execution.  Returns the list of
     World objects (status 'ok' or 'undecided')."""
@@ -954,6 +958,8 @@ def analyse(mod, fname, make_args, max_worlds=64, max_steps=2000000, gcache=None
         plen = len(prefix)
         args, regions = make_args()
         m = Machine(mod, regions, prefix, max_steps, gcache)
+        if externals:
+            m.externals = externals
         try:
             if callable(fname):
                 # a script: several calls on the same regions, one world
